@@ -185,4 +185,8 @@ func init() {
 		"	if res.Ack {\n		s.cycle.res.Ack = true\n	}", "	if !res.Ack {\n		s.cycle.res.Ack = false\n	}", "C07.R2.sync")
 	mut("C07", "the engine reports success only when every channel iterator succeeded", "cesium/iterator_stream.go",
 		"func (s *streamIterator) execWithoutResponse(f func(i *unary.Iterator) bool) (ok bool) {\n	for _, i := range s.internal {\n		if f(i) {\n			ok = true\n		}\n	}\n	return\n}", "func (s *streamIterator) execWithoutResponse(f func(i *unary.Iterator) bool) (ok bool) {\n	ok = len(s.internal) > 0\n	for _, i := range s.internal {\n		if !f(i) {\n			ok = false\n		}\n	}\n	return\n}", "C07.R2.sync")
+
+	// ---------------- C08.R6
+	mut("C08", "the codec forgets the state before the previous one", "core/pkg/distribution/framer/codec/codec.go",
+		"			c.mu.states[c.mu.seqNum] = s\n", "			c.mu.states[c.mu.seqNum] = s\n			delete(c.mu.states, c.mu.seqNum-2)\n", "C08.R6.states")
 }
